@@ -98,7 +98,14 @@ static Plan gen_guarded(Engine *e, const GenCfg &cfg) {
   if (g_ref_crash_seen) { Rec lr; lr.type = "link"; g_ref_crash_recipe.to(lr); g_stats.inc("corpus.runs_replaced_by_refcrash_plan"); g_ref_crash_seen = false; return e->refcrash_plan(cfg, lr); }
   return p;
 }
+// Runs executed earlier in the same process are part of a run's history when the code under test keeps state outside its objects (a static
+// cache, a table initialised by the first caller). A violation that does not reproduce in a fresh process is retried with such earlier runs as a
+// prelude (executed first in the same child, outcome ignored); the replay file then carries the prelude plans in front of the plan, separated
+// by "planbreak" records, and replays exactly like any other.
+static std::vector<Plan> g_prelude;
+static Plan g_first_plan, g_prev_plan; static bool g_have_first = false, g_have_prev = false;
 static Outcome exec_isolated(Engine *e, const Plan &plan, const std::string &prop) {
+  for (auto &pp : g_prelude) e->prepare(pp);
   e->prepare(plan);
   int pfd[2]; if (pipe(pfd)) { perror("pipe"); __real__exit(2); }
   mkdir(g_tmpdir.c_str(), 0777);
@@ -109,7 +116,9 @@ static Outcome exec_isolated(Engine *e, const Plan &plan, const std::string &pro
     close(pfd[0]); g_result_fd = pfd[1];
     int efd = open(errpath.c_str(), O_WRONLY | O_CREAT | O_TRUNC, 0666); if (efd >= 0) { dup2(efd, 2); close(efd); }
     signal(SIGPROF, on_prof); watchdog_arm(g_cpu_budget);
-    InExec inexec; Outcome o = e->exec(plan);
+    InExec inexec;
+    for (auto &pp : g_prelude) { Outcome po = e->exec(pp); (void)po; watchdog_arm(g_cpu_budget); }
+    Outcome o = e->exec(plan); if (!g_prelude.empty() && o.violation) o.facts["needs_history"] = "1";
     std::string d = o.detail; for (auto &ch : d) if (ch == '\n') ch = '|';
     std::string l = "D " + d + "\n" + o.line() + "\n"; ssize_t r = write(pfd[1], l.data(), l.size()); (void)r;
     __real__exit(0);
@@ -191,9 +200,18 @@ static std::string write_replay(const std::string &dir, const std::string &engin
   fprintf(f, "engine name=%s\n", engine.c_str());
   std::string ex = "expect cls=" + o.cls + fmt(" hash=%016llx", (unsigned long long)o.hash); for (auto &kv : o.facts) ex += " " + kv.first + "=" + kv.second;
   fprintf(f, "%s\n", ex.c_str());
+  for (auto &pp : g_prelude) { fprintf(f, "# earlier run of the same process (its outcome is not judged; it leaves the state the run below depends on)\n"); fputs(pp.str().c_str(), f); fprintf(f, "planbreak\n"); }
   fputs(p.str().c_str(), f);
   if (!o.detail.empty()) { fprintf(f, "# detail:\n"); std::istringstream ds(o.detail); std::string l; int n = 0; while (std::getline(ds, l) && n++ < 60) fprintf(f, "#   %s\n", l.c_str()); }
   fclose(f); return path;
+}
+
+static Outcome fresh_replay(const std::string &path) {
+  std::string cmd = fmt("/proc/self/exe replay '%s' --tmpdir '%s' --cpu-budget %d 2>/dev/null", path.c_str(), g_tmpdir.c_str(), g_cpu_budget);
+  char self[4096]; ssize_t n = readlink("/proc/self/exe", self, sizeof self - 1); if (n > 0) { self[n] = 0; cmd = fmt("'%s' replay '%s' --tmpdir '%s' --cpu-budget %d 2>/dev/null", self, path.c_str(), g_tmpdir.c_str(), g_cpu_budget); }
+  fflush(stdout); FILE *f = popen(cmd.c_str(), "r"); Outcome o; if (!f) return o;
+  char line[8192]; while (fgets(line, sizeof line, f)) { if (!strncmp(line, "REPLAY ", 7)) { std::string l = line + 7; while (!l.empty() && (l.back() == '\n' || l.back() == '\r')) l.pop_back(); o = parse_outcome_line(l); } }
+  pclose(f); return o;
 }
 
 static std::string facts_str(const Outcome &o) { std::string s; for (auto &kv : o.facts) s += " " + kv.first + "=" + kv.second; return s; }
@@ -201,7 +219,9 @@ static std::string facts_str(const Outcome &o) { std::string s; for (auto &kv : 
 // returns false when the violation did not reproduce (machinery error)
 static bool handle_violation(Engine *e, const std::string &engine, const Plan &plan, const Outcome *inproc, const std::string &prop, uint64_t seed, const std::string &replaydir, bool do_shrink) {
   double t0 = now_s();
+  g_prelude.clear();
   Outcome o1 = exec_isolated(e, plan, prop);
+  struct ClearPrelude { ~ClearPrelude() { g_prelude.clear(); } } clear_prelude;
   if (!o1.violation) { printf("FLAKY seed=%llu first=%s second=OK\n", (unsigned long long)seed, inproc ? inproc->cls.c_str() : "crash"); fflush(stdout); return false; }
   // The verdict (violation class + facts) must reproduce. The full trace hash normally does too; it legitimately does not when the code
   // under test lets uninitialised stack contents (return addresses, saved pointers: ASLR-dependent) reach its output - which is itself
@@ -219,6 +239,16 @@ static bool handle_violation(Engine *e, const std::string &engine, const Plan &p
   if (same_class(a, o1) && same_class(b, o1) && a.hash != b.hash) trace_stable = false;
   if (!same_class(a, o1) || !same_class(b, o1)) { printf("FLAKY seed=%llu minimised replay unstable %s/%016llx vs %s/%016llx\n", (unsigned long long)seed, a.cls.c_str(), (unsigned long long)a.hash, b.cls.c_str(), (unsigned long long)b.hash); fflush(stdout); return false; }
   std::string path = write_replay(replaydir, engine, minp, a, seed);
+  // The forked executions above inherit this process's memory, including whatever the code under test keeps outside its objects. The replay file
+  // must stand on its own: it is executed once more by a freshly started process, and when the violation is not there, earlier runs of this
+  // process (the previous one, the first one, both) are put in front of the plan as a prelude until a fresh process reproduces it.
+  { Outcome fr = fresh_replay(path);
+    if (!same_class(fr, a)) {
+      std::vector<std::vector<Plan>> cands; bool found = false;
+      if (g_have_prev) cands.push_back({g_prev_plan}); if (g_have_first) cands.push_back({g_first_plan}); if (g_have_first && g_have_prev) cands.push_back({g_first_plan, g_prev_plan});
+      for (auto &c : cands) { g_prelude = c; a.facts["needs_history"] = "1"; path = write_replay(replaydir, engine, minp, a, seed); fr = fresh_replay(path); if (same_class(fr, a)) { found = true; g_stats.inc("violations.reproduced_only_with_process_history"); break; } }
+      if (!found) { unlink(path.c_str()); printf("FLAKY seed=%llu %s reproduces in forked copies of this process but not in a fresh one, with or without the previous/first run as history\n", (unsigned long long)seed, a.cls.c_str()); fflush(stdout); return false; }
+    } }
   printf("VIOL prop=%s cls=%s replay=%s hash=%016llx seed=%llu recs_before=%zu recs_after=%zu shrink_execs=%d shrink_s=%.1f trace_stable=%d%s\n", a.prop.c_str(), a.cls.c_str(), path.c_str(), (unsigned long long)a.hash,
          (unsigned long long)seed, plan.recs.size(), minp.recs.size(), execs, now_s() - t0, trace_stable ? 1 : 0, facts_str(a).c_str());
   if (!a.detail.empty()) { std::string d = a.detail.substr(0, 400); for (auto &c : d) if (c == '\n') c = '|'; printf("DETAIL %s\n", d.c_str()); }
@@ -242,7 +272,7 @@ int main(int argc, char **argv) {
     if (argc < 3) return 2;
     std::string text = slurp(argv[2]); if (text.empty()) { fprintf(stderr, "cannot read %s\n", argv[2]); return 2; }
     Plan all = Plan::parse(text); Plan p; std::string engine; Rec expect;
-    for (auto &r : all.recs) { if (r.type == "engine") engine = r.s("name"); else if (r.type == "expect") expect = r; else p.recs.push_back(r); }
+    for (auto &r : all.recs) { if (r.type == "engine") engine = r.s("name"); else if (r.type == "expect") expect = r; else if (r.type == "planbreak") { g_prelude.push_back(p); p = Plan(); } else p.recs.push_back(r); }
     Engine *e = engine_by_name(engine);
     const Rec *meta = p.first("meta"); std::string prop = meta ? meta->s("prop") : "C00";
     if (flag(argc, argv, "--inproc")) { signal(SIGPROF, on_prof); watchdog_arm(g_cpu_budget); e->prepare(p); InExec inexec; Outcome o = e->exec(p); printf("REPLAY %s\n", o.line().c_str()); if (!o.detail.empty()) printf("DETAIL %s\n", o.detail.c_str()); return o.violation ? 1 : 0; }
@@ -302,6 +332,7 @@ int main(int argc, char **argv) {
     Outcome o; { InExec inexec; o = e->exec(p); }
     watchdog_arm(0);
     runs++;
+    struct Remember { const Plan &p; ~Remember() { if (!g_have_first) { g_first_plan = p; g_have_first = true; } g_prev_plan = p; g_have_prev = true; } } remember{p};
     if (runlog) printf("RUN %ld %016llx %d\n", r, (unsigned long long)o.hash, o.violation ? 1 : 0);
     if (o.nontrivial && !o.violation) nt_hashes.insert(o.hash);
     if (runs <= nsamples) { std::string s = p.str(); for (auto &c : s) if (c == '\n') c = ';'; printf("SAMPLE %s\n", s.c_str()); }
